@@ -1,10 +1,16 @@
 (* C15 — Concurrent registrations cannot duplicate a user ID or share a slot.
    Statements over the interleaving model of Model/C15.v (ptt.SetupNewUser under the passwd semaphore): any number
-   of threads, any ids, any initial account table, any schedule (list of actions: a step of a thread, or an
-   interrupted semaphore wait; an action that is not enabled is skipped). Atomicity of the individual steps
+   of threads spread over any number of processes, any ids, any initial account table, any schedule (list of actions:
+   a step of a thread, an interrupted semaphore wait, [Join p] = a process starting while the others run (its start-up
+   calls cmbbs.PasswdInit on the attach path), [Die p] = a process going away at any moment, by exit or SIGKILL, with
+   the kernel applying its SEM_UNDO adjustment; an action that is not enabled is skipped). Every theorem below that
+   quantifies over [sch] therefore holds with processes joining and leaving while registrations are in flight.
+   Atomicity of the individual steps
    (one index lookup, semop, SetUserID, the write of one .PASSWDS record) is the stated assumption of the model.
    [idx s k] is the id the shared-memory index holds for slot k, [pwd s k] the id in record k of .PASSWDS,
-   [] the empty id; [key] folds letter case. [PDoneOk k] = the call returned nil and the account is in slot k. *)
+   [] the empty id; [key] folds letter case. [PDoneOk k] = the call returned nil and the account is in slot k;
+   [PDead], [PDeadW k], [PDeadOk k] = the call's process went away before it returned (having written nothing / the
+   index entry of slot k only / both the index entry and the record of slot k). *)
 From Verif Require Import Base.Common Model.C15 Proofs.C15.
 
 Definition WellFormed (c : cfg) : Prop := forall t, uid c t <> [].
@@ -45,7 +51,8 @@ Print Assumptions C15_index_agrees.
 (* The passwd semaphore is a COUNTER in the model ([semv], what semctl(GETVAL) reads): PasswdLock needs it positive and
    decrements it, every PasswdUnlock increments it and nothing caps it. For the protocol as coded, under every schedule
    and history (refusals inside the critical section — id found by the lookup under the lock, no free slot —,
-   interrupted waits, any number of later registrations on the same semaphore): the value never exceeds 1, it is 0
+   interrupted waits, any number of later registrations on the same semaphore, processes starting while a call is
+   inside the lock, processes going away while one of their calls holds the lock or waits for it): the value never exceeds 1, it is 0
    while a call is between its PasswdLock and its PasswdUnlock, it is 1 whenever no call is inside, in particular at
    quiescence. (Proofs/C15.v ex_counter_2_shares_slot: from a value of 2 the step relation hands one slot to two ids.) *)
 Theorem C15_sem_counter : forall c init, WellFormed c -> forall sch,
@@ -66,12 +73,66 @@ Theorem C15_observed_counter : forall c init, WellFormed c -> forall zs s' o,
 Proof. intros c init H. exact (observed_counter c init H). Qed.
 Print Assumptions C15_observed_counter.
 
-(* no deadlock: while some call has not returned, some thread can move *)
+(* no deadlock: while some call has neither returned nor lost its process, some thread can move — a call waiting for
+   the semaphore is never stuck behind a holder whose process went away (without [Die] in the schedule no call is ever
+   [dead] and this is the statement "while some call has not returned, some thread can move") *)
 Theorem C15_progress : forall c init, WellFormed c -> forall sch t,
   let s := run c sch (init_st init) in
-  finished (pcs s t) = false -> exists t', step c s (Step t') <> None.
+  finished (pcs s t) = false -> dead (pcs s t) = false -> exists t', step c s (Step t') <> None.
 Proof. intros c init H. exact (progress c init H). Qed.
 Print Assumptions C15_progress.
+
+(* A process starting in ANY reachable state — whatever the calls of the other processes are doing — can always do so
+   and changes neither the semaphore nor anything else; a lock that is held stays held (value 0, same holder). *)
+Theorem C15_join_keeps_lock : forall c init, WellFormed c -> forall sch p,
+  let s := run c sch (init_st init) in
+  exists s', step c s (Join p) = Some s' /\
+    semv s' = semv s /\ pcs s' = pcs s /\ idx s' = idx s /\ pwd s' = pwd s /\ adj s' = adj s /\
+    (forall t, holder (pcs s t) = true -> semv s' = 0%nat /\ holder (pcs s' t) = true).
+Proof. intros c init H. exact (join_keeps_lock c init H). Qed.
+Print Assumptions C15_join_keeps_lock.
+
+(* SEM_UNDO: in every reachable state the adjustment the kernel keeps for process p is 1 if the call inside the lock
+   runs in p and 0 otherwise (0 for every process when no call is inside). *)
+Theorem C15_undo_adjustment : forall c init, WellFormed c -> forall sch p,
+  let s := run c sch (init_st init) in
+  (forall t, holder (pcs s t) = true -> adj s p = if Nat.eqb (proc c t) p then 1 else 0) /\
+  ((forall t, holder (pcs s t) = false) -> adj s p = 0).
+Proof. intros c init H. exact (undo_adjustment c init H). Qed.
+Print Assumptions C15_undo_adjustment.
+
+(* Process p going away in ANY reachable state: its calls stop where they are ([kill]: what they wrote stays), the
+   calls of the other processes and both tables are untouched; if the call inside the lock — if there is one — runs in
+   p the semaphore is free afterwards (value 1: the next registration gets in, C15_progress), and if it runs in
+   another process the semaphore stays taken (value 0). *)
+Theorem C15_process_exit : forall c init, WellFormed c -> forall sch p,
+  let s := run c sch (init_st init) in let s' := run c (sch ++ [Die p]) (init_st init) in
+  (forall t, proc c t = p -> pcs s' t = kill (pcs s t)) /\
+  (forall t, proc c t <> p -> pcs s' t = pcs s t) /\
+  idx s' = idx s /\ pwd s' = pwd s /\
+  ((forall t, holder (pcs s t) = true -> proc c t = p) -> semv s' = 1%nat) /\
+  (forall t, holder (pcs s t) = true -> proc c t <> p -> semv s' = 0%nat).
+Proof. intros c init H. exact (process_exit c init H). Qed.
+Print Assumptions C15_process_exit.
+
+(* a slot is owned by at most one call, also counting the calls that lost their process after writing the index
+   ([owned p = Some k] for PWrite k, PUnlock k, PDoneOk k, PDeadW k, PDeadOk k) *)
+Theorem C15_distinct_owners : forall c init, WellFormed c -> forall sch t t' k,
+  let s := run c sch (init_st init) in owned (pcs s t) = Some k -> owned (pcs s t') = Some k -> t = t'.
+Proof. intros c init H. exact (distinct_owners c init H). Qed.
+Print Assumptions C15_distinct_owners.
+
+(* C15_index_agrees with processes gone: once every call has returned or lost its process, the semaphore is free, the
+   index and .PASSWDS agree on every slot (except a slot whose writer lost its process between the two writes), and every
+   slot holds what it held before or the id of the ONE call (returned with success, or gone after writing) given it *)
+Theorem C15_settled_agrees : forall c init, WellFormed c -> forall sch,
+  let s := run c sch (init_st init) in settled s ->
+  semv s = 1%nat /\ sem s = None /\
+  forall k, ((forall t, pcs s t <> PDeadW k) -> pwd s k = idx s k) /\
+    ((exists t, (pcs s t = PDoneOk k \/ pcs s t = PDeadOk k \/ pcs s t = PDeadW k) /\ idx s k = uid c t /\ init k = []) \/
+     ((forall t, owned (pcs s t) <> Some k) /\ idx s k = init k)).
+Proof. intros c init H. exact (settled_agrees c init H). Qed.
+Print Assumptions C15_settled_agrees.
 
 (* The code as found (existence check only outside the semaphore): "at most one registration of an id succeeds" is
    false. Two registrations of the same id — and of ids differing only in letter case — both succeed under
